@@ -1,2 +1,111 @@
-From Coq Require Import ZArith List.
-From FV Require Import C19.Model C19.Proofs.
+(* C19 — property theorems.  Only statements, [exact lemma] and Print Assumptions. *)
+From Coq Require Import ZArith List Bool.
+From FV Require Import C19.Model C19.Spec C19.Proofs.
+Import ListNotations.
+Open Scope Z_scope.
+
+(* Entry::intersects = step 1 of the specification's "check entry intersection" *)
+Theorem c19_entry_intersects_matches_spec : forall e d,
+  Forall (fun ts => snd ts <> [] /\ Forall (fun r => fst r <= snd r) (snd ts)) (ed_ds e) ->
+  (entry_intersects e d = true <-> spec_dims e d).
+Proof. exact entry_intersects_spec. Qed.
+
+(* the intersection cache (left-to-right pass) = the whole "check entry intersection", including
+   conjunctive / disjunctive child entries, for every decoded mapping and every definition *)
+Theorem c19_intersect_matches_spec : forall m d, mapping_wf m ->
+  forall i, (i < length m)%nat -> (nth i (hits d m) false = true <-> spec_intersects m d i).
+Proof. exact hits_spec. Qed.
+
+(* what the decoder checks implies the well-formedness used above *)
+Theorem c19_decodable_wf : forall m, entries_decodable 0 m = true ->
+  (forall i e, nth_error m i = Some e -> Forall (fun ts => snd ts <> []) (ed_ds (e_def e))) ->
+  mapping_wf m.
+Proof. exact entries_decodable_wf. Qed.
+
+(* offered = { e | not applied, not ignored, spec_intersects e def }, over both tables *)
+Theorem c19_selection_exact : forall f d cs, font_wf f -> offered f d = Some cs ->
+  forall c, In c cs <->
+    exists t i e, In t f /\ nth_error (t_entries t) i = Some e /\ c = mk_cand t d (i, e) /\
+                  e_ignored e = false /\ ~ In (e_bit e) (t_applied t) /\
+                  spec_intersects (t_entries t) d i.
+Proof. exact offered_exact. Qed.
+
+(* def <= def'  ->  offered def <= offered def' *)
+Theorem c19_offered_monotone : forall f a b, sdef_subset a b -> forall ca, offered f a = Some ca ->
+  exists cb, offered f b = Some cb /\ incl (map cand_entry ca) (map cand_entry cb).
+Proof. exact offered_mono. Qed.
+
+(* offered def <= offered SubsetDefinition::all() *)
+Theorem c19_offered_subset_all : forall f d cs, offered f d = Some cs ->
+  exists call, offered f sdef_all = Some call /\ incl (map cand_entry cs) (map cand_entry call).
+Proof. exact offered_subset_all_lemma. Qed.
+
+(* a selected group never contains the same URI twice *)
+Theorem c19_group_no_duplicate_uri : forall f d g, select_next f d = Some (Some g) -> NoDup (uris g).
+Proof. exact select_next_nodup. Qed.
+
+(* every patch of the group is an offered candidate *)
+Theorem c19_group_members_offered : forall f d g, select_next f d = Some (Some g) ->
+  exists cands, offered f d = Some cands /\ incl (members g) cands.
+Proof. exact select_next_members_offered. Qed.
+
+(* at most one invalidating patch per mapping table (tables identified by compatibility id) *)
+Theorem c19_group_at_most_one_invalidating_per_table : forall f d g, select_next f d = Some (Some g) ->
+  forall c1 c2, In c1 (members g) -> In c2 (members g) ->
+    is_invalidating (c_fmt c1) = true -> is_invalidating (c_fmt c2) = true ->
+    c_cid c1 = c_cid c2 -> c1 = c2.
+Proof. exact select_next_one_invalidating. Qed.
+
+(* nothing else alongside a fully invalidating patch, and one is chosen whenever one is offered *)
+Theorem c19_full_invalidation_alone : forall f d g, select_next f d = Some (Some g) ->
+  forall c, In c (members g) -> c_fmt c = FullInv -> members g = [c].
+Proof. exact select_next_full_alone. Qed.
+Theorem c19_full_invalidation_priority : forall f d g cands,
+  select_next f d = Some (Some g) -> offered f d = Some cands ->
+  (exists x, In x cands /\ c_fmt x = FullInv) -> exists c, g = GFull c /\ c_fmt c = FullInv.
+Proof. exact select_next_full_priority. Qed.
+
+(* the invalidating patch of each scope has a maximal intersection and, among equals, the
+   earliest entry order (best_in); a scope has no invalidating patch only if it has no candidate *)
+Theorem c19_invalidating_choice_maximal : forall f d g cands,
+  select_next f d = Some (Some g) -> offered f d = Some cands ->
+  match g with
+  | GFull c => best_in c (filter is_full cands)
+  | GMixed a b =>
+      filter is_full cands = [] /\
+      scope_ok (filter (pred_pift (cid_of 0 f)) cands) a /\
+      scope_ok (filter (uri_differs (sel_of a)) (filter (pred_piftx (cid_of 0 f) (cid_of 1 f)) cands)) b
+  end.
+Proof. exact select_next_choice_maximal. Qed.
+Theorem c19_max_by_key_is_best : forall l c, max_by_info l = Some c -> best_in c l.
+Proof. exact max_by_info_best. Qed.
+
+(* a successful apply round moves at least one URI of the group from Pending to Applied, never
+   back, so the number of pending URIs strictly decreases *)
+Theorem c19_round_progress : forall g pd ok pd', apply_next g pd ok = Some pd' ->
+  (pending_count pd' < pending_count pd)%nat /\
+  (exists u, In u (uris g) /\ pd_get u pd = Some Pending /\ pd_get u pd' = Some Applied) /\
+  (forall v, pd_get v pd = Some Applied -> pd_get v pd' = Some Applied).
+Proof. exact apply_next_progress. Qed.
+
+(* whatever groups later rounds select (the mapping may be replaced by a patch), an extension run
+   has at most as many successful rounds as there were pending URIs *)
+Theorem c19_extension_terminates : forall rounds pd pd', run_rounds rounds pd = Some pd' ->
+  (length rounds <= pending_count pd)%nat.
+Proof. exact extension_terminates_lemma. Qed.
+
+Print Assumptions c19_entry_intersects_matches_spec.
+Print Assumptions c19_intersect_matches_spec.
+Print Assumptions c19_decodable_wf.
+Print Assumptions c19_selection_exact.
+Print Assumptions c19_offered_monotone.
+Print Assumptions c19_offered_subset_all.
+Print Assumptions c19_group_no_duplicate_uri.
+Print Assumptions c19_group_members_offered.
+Print Assumptions c19_group_at_most_one_invalidating_per_table.
+Print Assumptions c19_full_invalidation_alone.
+Print Assumptions c19_full_invalidation_priority.
+Print Assumptions c19_invalidating_choice_maximal.
+Print Assumptions c19_max_by_key_is_best.
+Print Assumptions c19_round_progress.
+Print Assumptions c19_extension_terminates.
